@@ -70,6 +70,11 @@ prop('C06', 'fault_enumeration', 'exhaustive deviation-bounded corruption sweep 
      'is given to ASan-instrumented e2fsck (-fn, -fy, thorough -fp/-fyD), dumpe2fs, a 45-command read-only debugfs script, and (thorough) tune2fs -l, resize2fs -P, e2image -r/-Q, e2freefrag, e2undo: no sanitizer report, no fatal signal, exit within 20 s (re-run alone with 150 s before a hang is reported), e2fsck exit status within its documented bit set.',
      'scope is corrupted well-formed images within one field / one byte (thorough two fields), not arbitrary byte strings; commands whose run time is proportional to i_size (cat/dump/rdump) are not in the script. Four genuine defects found this way were repaired (fix: commits, see known_findings.json).', '4/C06')
 
+prop('C07', 'model_checking', 'exhaustive enumeration of a configuration product: feature set x every device size (1-block steps across 4 groups and around descriptor-block boundaries, 1k/2k/4k blocks) x one-at-a-time option deviations; e2fsck + independent checker + geometry/backup oracle',
+     'Every configuration of the product (18 feature sets x every size from 40k to 4 groups+20, +-12 blocks around 16/17/32/33/64/65 groups, 2k/4k block geometries, ~50 option deviations x sizes) is given to mke2fs; for every accepted one: e2fsck -fn exits 0, the independent checker is clean, '
+     'requested block/cluster/inode size, group size, inode count and features are present, s_blocks_count fits the request, the backup superblock set is exactly the format\'s and current; pre-filled targets stay identical under mke2fs -n; a second run from the same initial device is byte-identical.',
+     'quick: 8 feature sets for the size sweep and 6 for the option deviations; rejected configurations are counted only. Known finding: the MMP block carries wall-clock time. One genuine defect found (quota files written before -d population) was repaired.', '4/C07')
+
 def main():
     props = [json.loads(l) for l in open(os.path.join(V, 'properties.jsonl'))]
     checks, na = [], []
